@@ -75,6 +75,9 @@ type Exec struct {
 	gobReg       map[*Term]gobEntry
 	world        *World
 	symLoopBound int
+	allocs       []AllocRec // make() calls whose size is not a constant
+	autoInv      bool // cut loops of symbolic trip count without a written invariant by the trivial invariant (safety proofs)
+	autoCuts     int
 	unwindAssert bool    // cut symbolic loops with an unwinding assertion instead of an assumption
 	residuals    []*Term // path conditions of the cut iterations (must be unsatisfiable)
 	maxSymUnroll int
@@ -429,7 +432,44 @@ func (ex *Exec) store(st *State, p *PtrVal, v Value, pos token.Pos) {
 	}
 }
 
+// AllocRec: a make([]T, len, cap) whose size depends on the state.
+type AllocRec struct {
+	C        *Term
+	Len, Cap *Term
+	Pos      string
+}
+
 // ---------- loops ----------
+
+// headerCondSymbolic: does the loop header branch on a condition that is not decided in the entry state?
+func (ex *Exec) headerCondSymbolic(fr *frame, lp *loop, st *State) bool {
+	h := lp.header
+	nP, nW, nC, nS, nA := len(ex.panics), len(ex.writes), len(ex.calls), len(ex.sideObls), len(ex.assumes)
+	savedEdges := map[[2]int]*State{}
+	for k, v := range fr.edges {
+		savedEdges[k] = v
+	}
+	savedCond, had := fr.ifCond[h.Index]
+	s := st.clone()
+	ex.evalPhis(fr, h, s, func(p *ssa.BasicBlock) bool { return !lp.body[p] })
+	delete(fr.ifCond, h.Index)
+	ex.execBlock(fr, h, s, func() {})
+	hc := fr.ifCond[h.Index]
+	sym := hc != nil && !hc.IsLit()
+	ex.panics, ex.writes, ex.calls, ex.sideObls, ex.assumes = ex.panics[:nP], ex.writes[:nW], ex.calls[:nC], ex.sideObls[:nS], ex.assumes[:nA]
+	for k := range fr.edges {
+		delete(fr.edges, k)
+	}
+	for k, v := range savedEdges {
+		fr.edges[k] = v
+	}
+	if had {
+		fr.ifCond[h.Index] = savedCond
+	} else {
+		delete(fr.ifCond, h.Index)
+	}
+	return sym
+}
 
 type loop struct {
 	header *ssa.BasicBlock
@@ -748,6 +788,23 @@ func (ex *Exec) execLoop(fr *frame, lp *loop) {
 	}
 	st := ex.incoming(fr, h, outside)
 	if st == nil {
+		return
+	}
+	if ex.autoInv && st.pc != TFalse && ex.headerCondSymbolic(fr, lp, st) {
+		// safety-only cut: the loop state is arbitrary except that a range index is at least -1
+		spec := &LoopSpec{Key: key}
+		for _, ins := range h.Instrs {
+			p, ok := ins.(*ssa.Phi)
+			if !ok {
+				break
+			}
+			if p.Comment == "rangeindex" {
+				e, _ := parseSExpr("(<= -1 rangeindex)")
+				spec.Inv = append(spec.Inv, e)
+			}
+		}
+		ex.autoCuts++
+		ex.execLoopInvariant(fr, lp, spec, key)
 		return
 	}
 	filter := outside
